@@ -46,10 +46,57 @@ PROPS = {
         theorems=['C11_absent', 'C11_too_large', 'C11_ok'],
         assumptions=['that the closure is not called for an absent key is observed by the harness (closure call counter), not part of the Layer A theorem'],
     ),
+    'C04': dict(
+        comps=['res', 'keyset', 'api', 'mon_c04', 'fault'],
+        theorems=['C04_nodup', 'C04_outputs', 'C04_insert_returns_old', 'C04_step'],
+        assumptions=['hashbrown finds an entry iff present under any hash function when the same hash is presented as at insertion (its contract; exercised with 5 hashers incl. constant, and Borrow<KeyId> lookups)',
+                     'after every step every key of the universe is looked up through contains/peek/peek_entry in borrowed and owned form and compared with the pointer walk (flag api)'],
+    ),
+    'C06': dict(
+        comps=['mon_c06', 'drops', 'drop_once'],
+        theorems=['C06_step', 'C06_exactly_once', 'C06_no_leak_without_forget'],
+        assumptions=['object identity = token carried by the instrumented key/value types; Drop logs the token'],
+    ),
+    'C12': dict(
+        comps=['res', 'drops', 'keyset', 'order', 'ents', 'sizes', 'cur', 'max', 'mon_c06', 'fault'],
+        ops=['iter', 'drain', 'into_iter'],
+        comps_any=['api'],
+        theorems=['C12_split', 'C12_fused', 'C12_iter', 'C12_drain', 'C12_into_iter'],
+    ),
+    'C13': dict(
+        comps=['cap', 'clone_cap', 'mon_c13', 'growth'],
+        comps_any=[],
+        theorems=['C13_transparent', 'C13_reserve', 'C13_try_reserve_fail', 'C13_shrink', 'C13_shrink_to_fit', 'C13_with_capacity_step', 'C13_auto_growth'],
+        assumptions=['Layer T is a demonic abstraction of hashbrown: tombstone creation/reuse is an oracle resolved from the observed capacity; every observed (len, capacity, buckets) transition must be one the model allows',
+                     'allocator refusal is injected by the harness allocator for try_reserve'],
+    ),
+    'C14': dict(
+        comps=['res', 'keyset', 'order', 'ents', 'sizes', 'cur', 'max', 'clone_cap', 'clone_fresh', 'drops', 'mon_c01', 'mon_c02', 'mon_c07', 'fault'],
+        ops=['clone'],
+        comps_any=['oth'],
+        theorems=['C14_equal', 'C14_fresh', 'C14_inv'],
+        assumptions=['independence is observed as: after every operation on one cache the structural fingerprint (addresses, links, sizes, scalars) of every other live cache is bit-for-bit unchanged (flag oth)'],
+    ),
     'C15': dict(
         comps=['visits', 'res', 'keyset', 'order', 'ents', 'sizes', 'cur', 'max', 'drops', 'fault'],
         ops=['retain'],
         theorems=['C15_retain'],
+    ),
+    'C18': dict(engine='sig_check', level='translation_validation', comps=[],
+        theorems=['C18_send', 'C18_sync', 'C18_send_exact', 'C18_sync_exact', 'C18_not_auto', 'C18_manual_impls', 'C18_borrow', 'C18_borrow_nonvacuous']),
+    'C19': dict(
+        comps=['ro'], static='c19',
+        theorems=['C19_model_readonly', 'C19_clone_source_untouched', 'C19_static_no_write'],
+        assumptions=['thread scheduling is not modelled; the schedules quantifier is discharged by "the heap is constant under every &self operation"',
+                     'the static call graph is a syntactic over-approximation produced by the syn translator (sound for the idioms it recognises; anything unrecognised counts as a write)',
+                     'clone: writes into the new cache through source-derived handles are not covered statically (Gen/README.md clone_residual); covered by the fingerprint of the source before/after clone (flag oth)'],
+        trusted_extra=['sigdump (syn 2 translator of /repo/src into coq/Gen/Sigs.v)'],
+        comps_any=['oth'],
+    ),
+    'C20': dict(
+        comps=['hashes_le', 'mon_c20'],
+        theorems=['C20_bound', 'C20_clone', 'C20_drop_into_iter'],
+        assumptions=['the implementation may hash LESS than the model (upper-bound property transfers under <=); hashbrown does not hash internally on the paths used'],
     ),
 }
 
@@ -64,5 +111,13 @@ MANIFEST_TEXT = {
     'C05': dict(text='Theorem C05_order for every operation: keys after = surviving keys in their old relative order ++ promoted key, with the exact table of promoting operations; C05_observers: observers leave the state identical. Order of the implementation is read through the hook walk and cross-checked against iter()/rev()/keys()/values()/peek_lru/peek_mru/Debug after every step.', note=_A, technique=_T),
     'C10': dict(text='Theorems C10_insert / C10_try_insert: exact classification with precedence, exact payload figures, atomicity of every failure (state equality incl. table), no eviction when the entry fits. The harness compares variant, all fields, identity tokens of the returned pair and bit-for-bit pointer structure before/after.', note=_A, technique=_T),
     'C11': dict(text='Theorems C11_absent / C11_too_large / C11_ok characterise mutate for every state and size change (shrink, equal, growth that fits with minimal eviction, growth beyond the limit with exact old/new sizes and untouched remainder).', note=_A + '; closure-not-called for absent keys is a harness observation', technique=_T),
+    'C04': dict(text='Theorems C04_nodup (one entry per key in every reachable state), C04_outputs / C04_insert_returns_old (every lookup, membership test, insertion, removal returns what the map says) and C04_step (every step updates the key->value map as a sequential map would, whatever the table oracle does: growth/reserve/shrink anywhere). "Any hasher / borrowed form" is the assumed hashbrown contract, exercised not proved (partial, see note).', note=_A + '; partial: independence from the hash function rests on the assumed hashbrown contract', technique=_T),
+    'C06': dict(text='Theorems C06_step (per-step multiset balance of object tokens: held + introduced = held + dropped + handed back (+ leaked by a forgotten Drain)) and C06_exactly_once (any history from creation to drop: every token exactly once in dropped / returned / leaked, never two of them), C06_no_leak_without_forget. The extracted monitor c06_mon and a never-dropped-twice check run on the implementation at identity level.', note=_A + '; the ptr::read paths of owning iterators are covered at list level here and at pointer level in Layer B', technique=_T),
+    'C12': dict(text='Theorems C12_split / C12_fused: for every pattern of next/next_back on every list, fronts ++ rest ++ rev backs = list, None only after exhaustion and then for ever; C12_iter / C12_drain / C12_into_iter tie the operations to that specification (drain leaves an empty, valid cache; owning iterators drop exactly the unconsumed). Item sequences of all seven iterator kinds with random patterns past exhaustion are compared.', note=_A, technique=_T),
+    'C13': dict(text='Theorems over the Layer T abstraction of hashbrown capacity accounting, all oracles: C13_reserve, C13_shrink / C13_shrink_to_fit (never raises, keeps >= max(len,min)), C13_try_reserve_fail (state unchanged), C13_transparent, C13_with_capacity_step, C13_auto_growth (growth only when full, new capacity < max(4 x entries, 16)); arithmetic of capacity_to_buckets / bucket_mask_to_capacity proved (c2b_spec). Monitors c13_mon and the history growth bound run on the implementation.', note=_A + '; tombstone behaviour of hashbrown is an oracle (over-approximated)', technique=_T),
+    'C14': dict(text='Theorems C14_equal (same entries, order, recorded sizes, counters; capacity >= source), C14_fresh, C14_inv (the clone satisfies the invariant so all theorems apply to it). Independence is a value-semantics fact of the model; on the implementation it is observed through bit-for-bit fingerprints of all other caches after every operation.', note=_A + '; the shared-heap frame theorem is Layer B', technique=_T),
     'C15': dict(text='Theorem C15_retain for all predicates: visits = entries LRU to MRU once each with their own key/value, survivors = filter in order, size and drops re-accounted.', note=_A, technique=_T),
+    'C20': dict(text='Theorem C20_bound for every operation, state and oracle: hashes + len after <= 2 + len before + added + (rebuilt ? len : 0), zero for traversals/clear/drain/LRU-MRU peeks/get_lru, rebuild only for reserve/try_reserve/shrink*/growing insertion; C20_clone. The implementation count of Hash::hash calls per API call must be <= the model count and satisfy the extracted bound c20_mon.', note=_A, technique=_T),
+    'C18': dict(engine='coq-gen+rustc', text='Tables regenerated from /repo/src on every run by a syn translator (impl bounds, field types, signatures with the origin of every returned lifetime); Coq theorems over the finite generated tables (C18_send/C18_sync: the written bounds are exactly K,V,S; C18_not_auto: a raw pointer blocks the auto impls; C18_borrow: every returned reference/borrowing iterator carries the receiver lifetime); rustc is the oracle: ~290 generated probe programs (full (Send,Sync) witness cube per parameter, misuse/legitimate program per signature row) must be accepted/rejected as the tables predict.', note='rustc is the oracle for trait solving and borrow checking; the translator is syntactic; theorems are over generated finite tables (closed by computation)', technique='generated Coq tables + theorems, validated against rustc accept/reject of generated probe programs', ref='DESIGN.md section 7 (C18), coq/Gen/README.md'),
+    'C19': dict(text='(1) Theorem C19_model_readonly: every &self operation of the model is the identity on the whole state; (2) Theorem C19_static_no_write over the call graph regenerated from the source: no write primitive is reachable from any &self operation, for all inputs; (3) on the implementation the structural fingerprint (addresses, links, sizes, scalars, geometry) read through the hook is compared before and after every &self call, for present and absent keys, and the fingerprint of every other cache after every operation.', note=_A + '; static graph is a syntactic over-approximation; thread schedules are not executed, the constant-heap argument covers them', technique='Coq proof over the model + Coq proof over a call graph generated from the source + differential fingerprint comparison'),
 }
